@@ -2,7 +2,7 @@ import AbtemVerif.Model.Proto
 import AbtemVerif.Model.ArrayObject
 open AbtemVerif AbtemVerif.Proto AbtemVerif.ArrObj
 
-/- object : `<baseDims> <shape a,b,c|_> <axes>` with axes `;`-separated (`~` = none): `O<label>:<v1,v2|_>` | `T<tag>` | `N<tag>:<offset>:<sampling>` (linear axis, exact rationals) | `U`;
+/- object : `<baseDims> <shape a,b,c|_> <axes>` with axes `;`-separated (`~` = none): `O<label>:<v1,v2|_>` | `T<tag>` | `N<tag>:<offset>:<sampling>` (linear axis, exact rationals) | `Q<tag>:<q1,q2|_>` (ordinal axis of coordinates) | `U`;
             data = 0,1,2,… (row-major provenance), offset by `<off>` where given
    requests: `get <obj> <T|F keepdims> <items>`   items `;`-separated (`~` = none): `i<int>` | `s<a>:<b>:<c>` (empty = None) | `n` | `l<i,j|_>` | `e`
              `expand <obj> <axes ints> <newaxes|default>`
@@ -22,6 +22,13 @@ def pAxis (s : String) : Option Axis :=
         let off ← parseRat? off
         let samp ← parseRat? samp
         pure (.linear t off samp)
+    | _ => none
+  else if s.startsWith "Q" then
+    match (s.drop 1).toString.splitOn ":" with
+    | [l, vs] => do
+        let l ← parseInt? l
+        let vs ← parseList? parseRat? vs
+        pure (.ordinalQ l vs)
     | _ => none
   else if s.startsWith "O" then
     match (s.drop 1).toString.splitOn ":" with
@@ -70,6 +77,7 @@ def showAxis : Axis → String
   | .other t => s!"T{t}"
   | .linear t off samp => s!"N{t}:{showRat off}:{showRat samp}"
   | .ordinal l vs => s!"O{l}:{showList showInt vs}"
+  | .ordinalQ l vs => s!"Q{l}:{showList showRat vs}"
 
 def showObj : Except Err Obj → String
   | .error e => s!"err {e.name}"
